@@ -339,3 +339,143 @@ pub fn table(o: &Opts) -> Res<()> {
     eprintln!("vh table: {} behaviours, {} trace lines", behs.len(), n);
     Ok(())
 }
+
+// ------------------------------------------------------------------------------------ txn ids
+
+/// Draw 2^24 + 3*2048 transaction ids from one MIDGenerator and 3*2048 activities from the AIDGenerator and
+/// write the reduced trace described in spec/trace/TxnTrace.tla.
+pub fn txn(o: &Opts) -> Res<()> {
+    let mut out = TraceOut::create(o.req("out")?)?;
+    const BLOCK: usize = 2048;
+    const MMAX: usize = 1 << 24;
+    let extra_blocks = o.num("extra", 3) as usize;
+    let n = MMAX + extra_blocks * BLOCK;
+    out.put(json!({"ev":"Reset","t":0}));
+    let mut aids = verif::Aids::new();
+    let mut mids = aids.generate();
+    let prefix = mids.action_id();
+    let mut last_seen = vec![u32::MAX; MMAX]; // index of the last draw of each message id
+    let mut first_repeat: i64 = -1;
+    let mut min_gap: i64 = -1;
+    let nblk = MMAX / BLOCK;
+    let mut k = 0usize;
+    let mut drawn = 0usize;
+    while drawn < n {
+        let mut min = u32::MAX;
+        let mut max = 0u32;
+        let mut prefix_ok = true;
+        let mut block = Vec::with_capacity(BLOCK);
+        for _ in 0..BLOCK {
+            let tid = mids.generate();
+            let v = u64::from_be_bytes(tid);
+            let p = v >> 24;
+            let m = (v & 0xff_ffff) as u32;
+            if p != prefix {
+                prefix_ok = false;
+            }
+            min = min.min(m);
+            max = max.max(m);
+            let idx = drawn as u32;
+            let prev = last_seen[m as usize];
+            if prev != u32::MAX && prefix_ok {
+                if first_repeat < 0 {
+                    first_repeat = drawn as i64 + 1; // 1-based index of the repeating draw
+                }
+                let gap = (idx - prev) as i64;
+                if min_gap < 0 || gap < min_gap {
+                    min_gap = gap;
+                }
+            }
+            last_seen[m as usize] = idx;
+            block.push(m);
+            drawn += 1;
+        }
+        let mut sorted = block.clone();
+        sorted.sort_unstable();
+        sorted.dedup();
+        out.put(json!({"ev":"MidBlock","k":k,"min":min,"max":max,"distinct":sorted.len(),"prefix_ok":prefix_ok,"len_ok":true}));
+        if k == 0 || k == nblk - 1 || k == nblk {
+            out.put(json!({"ev":"MidFull","k":k,"mids":block}));
+        }
+        k += 1;
+    }
+    out.put(json!({"ev":"MidRun","n":drawn,"first_repeat":first_repeat,"min_gap":min_gap}));
+    // activities
+    let mut list = vec![format!("{prefix:010x}")];
+    let mut consistent = true;
+    for _ in 0..(3 * BLOCK) {
+        let mut g = aids.generate();
+        let a = g.action_id();
+        let t = u64::from_be_bytes(g.generate());
+        if t >> 24 != a {
+            consistent = false;
+        }
+        list.push(format!("{a:010x}"));
+    }
+    out.put(json!({"ev":"Aids","aids":list,"consistent":consistent}));
+    let lines = out.finish();
+    eprintln!("vh txn: {} draws, {} trace lines", drawn, lines);
+    Ok(())
+}
+
+// ------------------------------------------------------------------------------------ bep42
+
+/// C20: ids from the public InfoHash::from_ip for a stratified set of addresses.
+/// IPv4: every one of the 20 mask-relevant bits is exercised both ways (`--classes all` = all 2^20 classes once,
+/// otherwise `--n4` stratified random ones), the remaining bits random; IPv6: random /64 prefixes.
+/// `--part i/n` writes only the i-th of n slices (for parallel validation).
+pub fn bep42(o: &Opts) -> Res<()> {
+    use rand::{Rng, SeedableRng};
+    let mut out = TraceOut::create(o.req("out")?)?;
+    let seed = o.num("seed", 1);
+    let mut rng = rand::rngs::StdRng::seed_from_u64(seed);
+    let n4 = o.num("n4", 4000);
+    let n6 = o.num("n6", 1000);
+    let all = o.get("classes") == Some("all");
+    let (pi, pn) = o.get("part").and_then(|p| p.split_once('/')).map(|(a, b)| (a.parse::<u64>().unwrap_or(0), b.parse::<u64>().unwrap_or(1))).unwrap_or((0, 1));
+    out.put(json!({"ev":"Reset","t":0}));
+    // mask 0x030f3fff: relevant bits of the 32-bit address
+    let relevant: Vec<u32> = (0..32).filter(|b| (0x030f_3fffu32 >> b) & 1 == 1).collect();
+    let mut emit4 = |class: u32, rng: &mut rand::rngs::StdRng, out: &mut TraceOut| {
+        let mut ip: u32 = rng.gen::<u32>() & !0x030f_3fff;
+        for (i, b) in relevant.iter().enumerate() {
+            if (class >> i) & 1 == 1 {
+                ip |= 1 << b;
+            }
+        }
+        let addr = std::net::Ipv4Addr::from(ip);
+        let id = btdht::InfoHash::from_ip(addr.into());
+        out.put(json!({"ev":"Id","ip":bytes_json(&addr.octets()),"id":bytes_json(id.as_ref())}));
+    };
+    if all {
+        for class in 0..(1u32 << 20) {
+            if (class as u64) % pn == pi {
+                emit4(class, &mut rng, &mut out);
+            }
+        }
+    } else {
+        for k in 0..n4 {
+            // stratified: walk single-bit and pair patterns first, then random classes
+            let class = if k < 20 { 1u32 << k } else if k < 40 { !(1u32 << (k - 20)) & 0xf_ffff } else { rng.gen::<u32>() & 0xf_ffff };
+            emit4(class, &mut rng, &mut out);
+        }
+    }
+    for k in 0..n6 {
+        if k % pn != pi {
+            continue;
+        }
+        let mut o16 = [0u8; 16];
+        rng.fill(&mut o16);
+        if k < 64 {
+            // single-bit patterns over the 64 prefix bits
+            o16[..8].copy_from_slice(&(1u64 << k).to_be_bytes());
+        }
+        let addr = std::net::Ipv6Addr::from(o16);
+        let id = btdht::InfoHash::from_ip(addr.into());
+        out.put(json!({"ev":"Id","ip":bytes_json(&addr.octets()),"id":bytes_json(id.as_ref())}));
+    }
+    out.put(json!({"ev":"End"}));
+    let lines = out.finish();
+    eprintln!("vh bep42: {} trace lines", lines);
+    Ok(())
+}
